@@ -89,6 +89,8 @@ def run(ctx, rep):
     r28(ctx, rep, rule="R3.5")
     rep.rule("R3.6", "the settings of the filter/history/callback reach Problem through the right parameters (no swapped arguments)")
     k = common.check_swapped_args(ctx, rep, "R3.6", lambda g: g.cls is not None and g.cls.name == "Problem" or g.name == "_build_result")
+    from . import c19
+    c19.r199(ctx, rep, ctx.func(T.MINIMIZE), c19.enum_tables(ctx), rule="R3.6")
     if k < 5:
         raise AnalysisError("call sites of Problem methods not found")
 
@@ -286,8 +288,32 @@ MIN_RED = {"min", "nanmin", "amin"}
 MAX_RED = {"max", "nanmax", "amax"}
 
 
+def _roles(be):
+    """local arrays of best_eval -> 'fun' | 'maxcv' | 'x' by the filter list they are built from"""
+    roles = {}
+    for node in ast.walk(be.node):
+        if isinstance(node, ast.Assign) and len(node.targets) == 1 and isinstance(node.targets[0], ast.Name):
+            for fld, r in (("_fun_filter", "fun"), ("_maxcv_filter", "maxcv"), ("_x_filter", "x")):
+                if mentions(node.value, fld) and not any(mentions(node.value, o) for o in ("_fun_filter", "_maxcv_filter", "_x_filter") if o != fld):
+                    roles.setdefault(node.targets[0].id, r)
+    return roles
+
+
+def _mr(e, role, roles):
+    fld = {"fun": "_fun_filter", "maxcv": "_maxcv_filter", "x": "_x_filter"}[role]
+    for sub in ast.walk(e):
+        if isinstance(sub, ast.Name) and roles.get(sub.id) == role:
+            return True
+        if isinstance(sub, ast.Attribute) and sub.attr == fld:
+            return True
+    return False
+
+
 def r32(ctx, rep):
     be = ctx.func(T.BEST_EVAL)
+    roles = _roles(be)
+    if set(roles.values()) != {"fun", "maxcv", "x"}:
+        raise AnalysisError(f"best_eval: local arrays built from the three filter lists not found ({roles})")
     n_masks = 0
     for node in ast.walk(be.node):
         if isinstance(node, ast.Compare) and len(node.ops) == 1 and isinstance(node.comparators[0], ast.Call):
@@ -336,8 +362,8 @@ def r32(ctx, rep):
         rep.finding("R3.2", be, "no feasibility mask", be.node.lineno, "best_eval no longer tests the violation against feasibility_tol")
         return
     l, op, r = _cmp_parts(feas.value)
-    good = (op == "<=" and mentions(r, "_feasibility_tol") and mentions(l, "maxcv_filter", "_maxcv_filter")) or \
-           (op == ">=" and mentions(l, "_feasibility_tol") and mentions(r, "maxcv_filter", "_maxcv_filter"))
+    good = (op == "<=" and mentions(r, "_feasibility_tol") and _mr(l, "maxcv", roles)) or \
+           (op == ">=" and mentions(l, "_feasibility_tol") and _mr(r, "maxcv", roles))
     if good:
         rep.ok("R3.2", f"best_eval:{feas.lineno} feasible <=> maxcv <= feasibility_tol")
     else:
@@ -360,8 +386,8 @@ def r32(ctx, rep):
         ok = False
         if len(mult) == 1 and len(other) == 1:
             m = mult[0]
-            ok = mentions(other[0], "fun_filter") and not mentions(other[0], "maxcv_filter") and \
-                ((mentions(m.left, "penalty") and mentions(m.right, "maxcv_filter")) or (mentions(m.right, "penalty") and mentions(m.left, "maxcv_filter")))
+            ok = _mr(other[0], "fun", roles) and not _mr(other[0], "maxcv", roles) and \
+                ((mentions(m.left, "penalty") and _mr(m.right, "maxcv", roles)) or (mentions(m.right, "penalty") and _mr(m.left, "maxcv", roles)))
         if ok:
             rep.ok("R3.2", f"best_eval:{merit.lineno} merit = fun + penalty * maxcv")
         else:
@@ -385,7 +411,7 @@ def r32(ctx, rep):
         rep.finding("R3.2", be, "no `feasible & (fun <= min fun)` mask", be.node.lineno, "the least-objective selection among feasible points is missing")
     else:
         ctxs = enclosing_context(sel, be.node)
-        if any(c[0] == "if-true" and mentions(c[1], fname) for c in ctxs) and mentions(sel.value, "fun_filter"):
+        if any(c[0] == "if-true" and mentions(c[1], fname) for c in ctxs) and _mr(sel.value, "fun", roles):
             rep.ok("R3.2", f"best_eval:{sel.lineno} feasible branch selects the least objective among feasible points")
         else:
             rep.bad("R3.2", "feasible selection")
@@ -394,12 +420,14 @@ def r32(ctx, rep):
     refinements = {}
     for node in ast.walk(be.node):
         if isinstance(node, ast.AugAssign) and isinstance(node.op, ast.BitAnd) and isinstance(node.target, ast.Name):
-            arr = node.value.left.id if isinstance(node.value, ast.Compare) and isinstance(node.value.left, ast.Name) else "?"
+            arr = roles.get(node.value.left.id, node.value.left.id) if isinstance(node.value, ast.Compare) and isinstance(node.value.left, ast.Name) else "?"
             refinements.setdefault(node.target.id, []).append((node.lineno, arr))
     for mask, seq in refinements.items():
         seq.sort()
         arrs = [a for _, a in seq]
-        want = ["maxcv_filter"] if "fun" in mask else ["maxcv_filter", "fun_filter"]
+        # the mask refined by (violation) selects on the objective; the one refined by
+        # (violation, objective) selects on the merit value
+        want = ["maxcv"] if len(arrs) == 1 else ["maxcv", "fun"]
         desc = f"best_eval tie-break of {mask}: {arrs}"
         if arrs == want:
             rep.ok("R3.2", desc)
